@@ -18,6 +18,7 @@ Service exception handling (WMS exceptions, XML, in_image, etc.).
 """
 from mapproxy.exception import ExceptionHandler, XMLExceptionHandler
 from mapproxy.response import Response
+from mapproxy.image import filter_format
 from mapproxy.image.message import message_image
 from mapproxy.image.opts import ImageOptions
 import mapproxy.service
@@ -78,11 +79,9 @@ class WMSImageExceptionHandler(ExceptionHandler):
         bgcolor = WMSImageExceptionHandler._bgcolor(request.params)
         image_opts = ImageOptions(format=format, bgcolor=bgcolor, transparent=transparent)
         result = message_image(request_error.msg, size=size, image_opts=image_opts)
-        content_type = params.format_mime_type
-        if content_type and '/' not in content_type:
-            # WMS 1.0.0 format names (PNG, JPEG, ...) are not converted to a mime type
-            # when the request fails before validate_format was called
-            content_type = 'image/' + content_type.lower()
+        # declare the format the image is encoded with: the FORMAT parameter is not
+        # validated (or converted from WMS 1.0.0 names like PNG) when the request fails early
+        content_type = 'image/' + filter_format(image_opts.format.ext).lower()
         return Response(result.as_buffer(), content_type=content_type)
 
     @staticmethod
